@@ -8,7 +8,7 @@
      smono st st'        st' is st with some locks removed                     (ProofsStore)
      covered pieces k    some piece contains k                                 (ProofsDel) *)
 From Verif Require Import Base.Lex RangeTask.Model RangeTask.ProofsOrd RangeTask.ProofsStore RangeTask.ProofsPart
-  RangeTask.ProofsInv RangeTask.ProofsScan RangeTask.ProofsGc RangeTask.ProofsOut RangeTask.ProofsDel RangeTask.ProofsTerm.
+  RangeTask.ProofsInv RangeTask.ProofsScan RangeTask.ProofsGc RangeTask.ProofsOut RangeTask.ProofsDel RangeTask.ProofsTerm RangeTask.ProofsAsync.
 Open Scope N_scope.
 
 (* ---- range task: for every range (unbounded end included) and every sequence of layouts, the sub-ranges
@@ -90,6 +90,28 @@ Theorem C14_resolved_record : forall st0 sp r l, k_lock r = Some l -> l_start l 
 Proof. exact resolve_by_outcome_spec. Qed.
 Print Assumptions C14_resolved_record.
 
+(* ---- async commit: checkAllSecondaries / addKeys.  For EVERY list of per-region answers, i.e. whatever the
+   order in which the CheckSecondaryLocks answers arrive: all locked => the max min_commit_ts; some lock missing and
+   the answers consistent (one common commit ts V, V = 0 = rolled back, a real V not below any min_commit_ts) => V.
+   C14_no_old_lock / C14_outcomes_kept above already cover async-commit transactions: committed_at (the outcome)
+   of a transaction whose async-commit primary lock is still in place is Model.async_decide, and wf_store demands
+   (W4) that the "missing" answers of its secondaries agree. *)
+Theorem C14_async_any_order : forall mc0 answers,
+  ((forall x, ~ In (RMissing x) answers) -> check_all_secondaries mc0 answers = Some (max_all mc0 answers)) /\
+  (forall V, (exists c, In (RMissing c) answers) -> consistent mc0 answers V -> check_all_secondaries mc0 answers = Some V).
+Proof. exact check_all_secondaries_spec. Qed.
+Print Assumptions C14_async_any_order.
+
+(* ---- PrimaryMismatch: with TiKV's primary check (collect_v) the status round of BatchResolveLocks never
+   fails on a reachable store whose primaries are well formed, and then equals the unchecked round (collect).
+   Without that (ex_mismatch below: a pessimistic lock whose primary pointer names a key holding a SECONDARY
+   prewrite lock of the same transaction) collect_v = None: BatchResolveLocks returns the error and the pass fails. *)
+Theorem C14_primary_check : forall st0 sp locks st infos,
+  wf_store st0 -> primaries_ok st0 -> InvP st0 sp st -> infos_ok st0 sp infos -> from0 st0 sp locks ->
+  collect_v st locks infos = Some (collect st locks infos).
+Proof. intros st0 sp locks st infos Hwf Hp. apply (collect_v_ok st0 sp Hwf locks Hp). Qed.
+Print Assumptions C14_primary_check.
+
 (* snapshot reads (any ts, in particular ts >= sp) of keys without an old lock are unchanged by the pass *)
 Theorem C14_reads_kept : forall st0 sp k ts,
   (forall r, find_key st0 k = Some r -> old_lock sp r = false) ->
@@ -150,6 +172,37 @@ Example ex_gc_result :
   resolve_all ex_store 50 =
   [ mkRec (ex_k 1) None []; mkRec (ex_k 2) None [mkWrite 3 4 (Some [1])]; mkRec (ex_k 3) None [mkWrite 20 25 (Some [2])];
     mkRec (ex_k 4) None [mkWrite 20 25 (Some [9])]; mkRec (ex_k 5) None []; mkRec (ex_k 6) (Some (mkLock 90 (ex_k 6) LPut [5])) [] ].
+Proof. vm_compute. reflexivity. Qed.
+(* async commit: primary k1 + secondaries k2,k3 all locked => committed at the max min_commit_ts (14);
+   primary k4 + secondaries k5 (locked), k6 (never prewritten) => rolled back *)
+Definition ex_async : store :=
+  [ mkRec (ex_k 1) (Some (mkLockA 10 (ex_k 1) LPut [1] true 11 [ex_k 2; ex_k 3])) [];
+    mkRec (ex_k 2) (Some (mkLockA 10 (ex_k 1) LPut [2] true 14 [])) [];
+    mkRec (ex_k 3) (Some (mkLockA 10 (ex_k 1) LDel [] true 12 [])) [];
+    mkRec (ex_k 4) (Some (mkLockA 20 (ex_k 4) LPut [4] true 21 [ex_k 5; ex_k 6])) [];
+    mkRec (ex_k 5) (Some (mkLockA 20 (ex_k 4) LPut [5] true 22 [])) [];
+    mkRec (ex_k 6) None [] ].
+Example ex_async_wf : wf_store ex_async.
+Proof. apply wf_storeb_wf. vm_compute. reflexivity. Qed.
+Example ex_async_gc : exists tr,
+  gc_resolve_range 20 50 2 [] [] (map (fun loc => mkOracle loc [] [] (Some loc)) [([], ex_k 3); ([], ex_k 3); (ex_k 3, []); (ex_k 3, []); (ex_k 3, [])]) ex_async
+  = GcOk [ mkRec (ex_k 1) None [mkWrite 10 14 (Some [1])]; mkRec (ex_k 2) None [mkWrite 10 14 (Some [2])]; mkRec (ex_k 3) None [mkWrite 10 14 None];
+           mkRec (ex_k 4) None []; mkRec (ex_k 5) None []; mkRec (ex_k 6) None [] ] tr.
+Proof. eexists. vm_compute. reflexivity. Qed.
+Example ex_async_orders :   (* the three delivery orders of "region A all locked (22, 25), region B missing: rolled back" *)
+  check_all_secondaries 21 [RLocked [22; 25]; RMissing 0] = Some 0 /\ check_all_secondaries 21 [RMissing 0; RLocked [22; 25]] = Some 0 /\
+  check_all_secondaries 21 [RLocked [22]; RLocked [25]] = Some 25.
+Proof. vm_compute. auto. Qed.
+(* stale pessimistic primary pointer onto a secondary prewrite lock of the same (committed) transaction *)
+Definition ex_mismatch : store :=
+  [ mkRec (ex_k 1) (Some (mkLock 10 (ex_k 2) LPess [])) [];
+    mkRec (ex_k 2) (Some (mkLock 10 (ex_k 3) LPut [2])) [];
+    mkRec (ex_k 3) None [mkWrite 10 15 (Some [3])] ].
+Example ex_mismatch_fails : collect_v ex_mismatch [mkRec (ex_k 1) (Some (mkLock 10 (ex_k 2) LPess [])) []] [] = None /\ primaries_okb ex_mismatch = false.
+Proof. vm_compute. auto. Qed.
+Example ex_mismatch_unchecked :   (* without the check (mocktikv) the committed transaction's secondary on k2 is rolled back *)
+  fst (collect ex_mismatch [mkRec (ex_k 1) (Some (mkLock 10 (ex_k 2) LPess [])) []] [])
+  = [ mkRec (ex_k 1) None []; mkRec (ex_k 2) None []; mkRec (ex_k 3) None [mkWrite 10 15 (Some [3])] ].
 Proof. vm_compute. reflexivity. Qed.
 Example ex_partition :
   run_on_range (batch_end_of [[ex_k 3; ex_k 5]; [ex_k 3; ex_k 4; ex_k 5]] 1) 10 (ex_k 2) [] =
